@@ -341,6 +341,9 @@ impl Check for RwaCheck {
     fn components(&self) -> serde_json::Value {
         serde_json::json!({"real": ["stellar_tokens::rwa::RWA::* behind a wrapper", "pausable", "fungible Base (allowances, update)"], "stub": ["Compliance (scripted can_*, durable notification counters, hook trap)", "IdentityVerifier (per-account pass/fail, recovery map)", "Wallet"]})
     }
+    fn probes(&self, _prop: &str) -> std::vec::Vec<&'static str> {
+        vec!["probe.transfer_from_under_closed_gate", "probe.transfer_under_closed_gate"]
+    }
     fn dup_ok(&self, _s: &Step) -> bool {
         true
     }
